@@ -68,7 +68,7 @@ def in_child(fn, timeout: float = 600):
 
 
 def map_job(pdesc, inputs, folder, storage, cleanup, logf, die_after=None, torn=False, record=False, fail=None,
-            kinds=None, new_inputs=None):
+            kinds=None, new_inputs=None, pool=None):
     """Executed inside a child: one map run, optionally dying after fs operation `die_after`."""
     def job():
         pd = json.loads(json.dumps(pdesc))
@@ -86,7 +86,7 @@ def map_job(pdesc, inputs, folder, storage, cleanup, logf, die_after=None, torn=
         if die_after is not None or record:
             fsx.install(folder, die_after=die_after, torn=torn, record=record)
         try:
-            evs, res = do_map_from(pl, pd, inp, folder, storage, cleanup, start)
+            evs, res = do_map_from(pl, pd, inp, folder, storage, cleanup, start, pool=pool)
             if new_inputs:
                 for e in evs:
                     if e["e"] in ("begin", "reject"):
@@ -123,12 +123,21 @@ def learners_job(pdesc, inputs, folder, logf):
     return job
 
 
-def do_map_from(pl, pd, inp, folder, storage, cleanup, start):
+def do_map_from(pl, pd, inp, folder, storage, cleanup, start, pool=None):
+    """pool: None = sequential | "thread" | "process" = the run goes through a real pool of that kind."""
     fnames = [fd["name"] for fd in pd["funcs"]]
     events = [pmap.ev(e="begin", F=fnames, cleanup=cleanup, fixed=[])]
+    ex = None
+    if pool:
+        from concurrent.futures import ProcessPoolExecutor, ThreadPoolExecutor
+        ex = ThreadPoolExecutor(3) if pool == "thread" else ProcessPoolExecutor(3)
     try:
-        with contextlib.redirect_stdout(io.StringIO()):
-            res = pl.map(inp, run_folder=folder, storage=storage, parallel=False, cleanup=cleanup)
+        try:
+            with contextlib.redirect_stdout(io.StringIO()):
+                res = pl.map(inp, run_folder=folder, storage=storage, parallel=bool(pool), executor=ex, cleanup=cleanup)
+        finally:
+            if ex is not None:
+                ex.shutdown(wait=True)
     except Exception as ex:  # noqa: BLE001
         evs = pmap.log_events(start)
         if not evs:
@@ -262,7 +271,8 @@ def history(scen, pdesc, storage, crash_points: list[dict], logdir: str, resume:
                         raise MachineryError(f"final map child exited with {code2}")
                     payload["ev"] += p2["ev"]
             elif cp is None:
-                code, payload = in_child(map_job(pdesc, scen["inputs"], folder, storage, cleanup, logf))
+                code, payload = in_child(map_job(pdesc, scen["inputs"], folder, storage, cleanup, logf,
+                                                 pool=resume.split("-")[1] if resume.startswith("map-") else None))
             elif cp["kind"] == "fs":
                 code, payload = in_child(map_job(pdesc, scen["inputs"], folder, storage, cleanup, logf,
                                                  die_after=cp["k"], torn=cp.get("torn", False)))
@@ -368,6 +378,11 @@ def run(ctx: Ctx) -> None:
                 if st == "file_array":
                     for k in (ks if not quick else ks[::2]):
                         hist.append(history(scen, pdesc, st, [{"kind": "fs", "k": k}], logdir, resume="learners"))
+                        opsof.append(ops)
+                # the resumed run goes through a real thread / process pool
+                for k in ks[1::3] if quick else ks:
+                    for kind in ("map-thread", "map-process"):
+                        hist.append(history(scen, pdesc, st, [{"kind": "fs", "k": k}], logdir, resume=kind))
                         opsof.append(ops)
                 # two successive crashes
                 pairs = [(rng.choice(ks), rng.randint(1, max(1, len(ops)))) for _ in range(3 if quick else 25)]
